@@ -1207,4 +1207,144 @@ theorem canonReorder_perm (maxMarks : Nat) (l : List Info) : (canonReorder maxMa
     · exact List.Perm.refl _
 
 
+/-! ## Part 7: the recomposition round -/
+
+/-- the view of a record the recomposition round decides on: code point and modified ccc -/
+def cm (i : Info) : Nat × Nat := (i.cp, i.mcc)
+
+/-- not blocked: nothing kept so far, or the last kept mark has a smaller class -/
+def unblockedCm (kept : List (Nat × Nat)) (m : Nat × Nat) : Bool :=
+  match kept.getLast? with
+  | none => true
+  | some p => decide (p.2 < m.2)
+
+/-- Spec of recomposing `starter + marks`: `a` = current starter, `kept` = marks not absorbed so far (in
+    order), then the incoming marks.  A mark is absorbed iff it is not blocked, `comp a m` is defined and
+    the font maps the result. -/
+def recomposeSpec (comp : Nat → Nat → Option Nat) (has : Nat → Bool) :
+    Nat → List (Nat × Nat) → List (Nat × Nat) → Nat × List (Nat × Nat)
+  | a, kept, [] => (a, kept)
+  | a, kept, m :: ms =>
+    match (if unblockedCm kept m then comp a m.1 else none) with
+    | some c => if has c then recomposeSpec comp has c kept ms else recomposeSpec comp has a (kept ++ [m]) ms
+    | none => recomposeSpec comp has a (kept ++ [m]) ms
+
+theorem unblockedCm_map (mid : List Info) (cur : Info) : unblockedCm (mid.map cm) (cm cur) = unblocked mid cur := by
+  unfold unblockedCm unblocked
+  rw [List.getLast?_map]
+  cases mid.getLast? <;> rfl
+
+theorem cm_setCluster (K : Consts) (i : Info) (c : Nat) : cm (setCluster K i c) = cm i := by
+  unfold setCluster cm; split <;> rfl
+
+theorem map_cm_setCluster (K : Consts) (l : List Info) (c : Nat) : (l.map (setCluster K · c)).map cm = l.map cm := by
+  simp [List.map_map, Function.comp_def, cm_setCluster]
+
+theorem cp_setCluster (K : Consts) (i : Info) (c : Nat) : (setCluster K i c).cp = i.cp := by
+  unfold setCluster; split <;> rfl
+
+theorem isMark_setCluster (K : Consts) (i : Info) (c : Nat) : (setCluster K i c).isMark = i.isMark := by
+  unfold setCluster; split <;> rfl
+
+theorem mergeOutClusters_spec (K : Consts) (pre : List Info) (s : Info) (mid rest : List Info) :
+    (mergeOutClusters K pre s mid rest).1.map (·.cp) = pre.map (·.cp) ∧
+    (mergeOutClusters K pre s mid rest).2.1.cp = s.cp ∧
+    (mergeOutClusters K pre s mid rest).2.2.1.map cm = mid.map cm ∧
+    (mergeOutClusters K pre s mid rest).2.2.2.map cm = rest.map cm ∧
+    (∀ m ∈ (mergeOutClusters K pre s mid rest).2.2.2, ∃ m' ∈ rest, m.isMark = m'.isMark ∧ m.mcc = m'.mcc) := by
+  unfold mergeOutClusters
+  simp only
+  refine ⟨?_, cp_setCluster _ _ _, map_cm_setCluster _ _ _, ?_, ?_⟩
+  · rw [List.map_append, List.map_map]
+    have : ((fun x => x.cp) ∘ fun x => setCluster K x (minCluster s.cluster mid)) = fun x => x.cp := by
+      funext x; exact cp_setCluster _ _ _
+    rw [this, ← List.map_append, List.take_append_drop]
+  · rw [List.map_append, map_cm_setCluster, ← List.map_append, List.take_append_drop]
+  · intro m hm
+    simp only [List.mem_append, List.mem_map] at hm
+    rcases hm with ⟨m', hm', rfl⟩ | hm
+    · exact ⟨m', List.mem_of_mem_take hm', isMark_setCluster _ _ _, mcc_setCluster _ _ _⟩
+    · exact ⟨m, List.mem_of_mem_drop hm, rfl, rfl⟩
+
+theorem getLast?_map_cm (l : List Info) : (l.map cm).getLast? = l.getLast?.map cm := by
+  simp [List.getLast?_map]
+
+theorem dropLast_snoc_map (K : Consts) (mid : List Info) (cur : Info) (c : Nat) :
+    (((mid ++ [cur]).map (setCluster K · c)).dropLast).map cm = mid.map cm := by
+  simp only [List.map_append, List.map_cons, List.map_nil, List.dropLast_concat, map_cm_setCluster]
+
+/-- the recomposition loop on `starter + marks` computes `recomposeSpec` -/
+theorem round3Go_spec (U : UData) (F : Font) (K : Consts) (rest pre : List Info) (s : Info) (mid : List Info)
+    (flags : Nat) (hrest : ∀ m ∈ rest, m.isMark = true ∧ m.mcc ≠ 0) :
+    (round3Go U F K rest pre s mid flags).1.map (·.cp) =
+      pre.map (·.cp) ++
+        (recomposeSpec U.comp F.has s.cp (mid.map cm) (rest.map cm)).1 ::
+        (recomposeSpec U.comp F.has s.cp (mid.map cm) (rest.map cm)).2.map (·.1) := by
+  generalize hn : rest.length = n
+  induction n generalizing rest pre s mid flags with
+  | zero =>
+    have : rest = [] := List.length_eq_zero_iff.mp hn
+    subst this
+    rw [round3Go]
+    simp [recomposeSpec, cm, List.map_map, Function.comp_def]
+  | succ n ih =>
+    cases rest with
+    | nil => simp at hn
+    | cons cur rest =>
+      have hcur := hrest cur List.mem_cons_self
+      have hrest' : ∀ m ∈ rest, m.isMark = true ∧ m.mcc ≠ 0 := fun m hm => hrest m (List.mem_cons_of_mem _ hm)
+      rw [round3Go]
+      simp only [List.map_cons, recomposeSpec]
+      rw [unblockedCm_map]
+      simp only [hcur.1, Bool.true_and]
+      have hcp : (cm cur).1 = cur.cp := rfl
+      rw [hcp]
+      by_cases hu : unblocked mid cur = true
+      · simp only [hu, ↓reduceIte]
+        unfold composeMapped
+        cases hc : U.comp s.cp cur.cp with
+        | none =>
+          simp only [hcur.2, ↓reduceIte]
+          rw [ih rest pre s (mid ++ [cur]) flags hrest' (by simpa using hn)]
+          simp
+        | some c =>
+          simp only
+          cases hg : F.glyph c with
+          | none =>
+            have hh : F.has c = false := by unfold Font.has; rw [hg]; rfl
+            simp only [hcur.2, ↓reduceIte, hh, Bool.false_eq_true]
+            rw [ih rest pre s (mid ++ [cur]) flags hrest' (by simpa using hn)]
+            simp
+          | some g =>
+            have hh : F.has c = true := by unfold Font.has; rw [hg]; rfl
+            simp only [hh, ↓reduceIte]
+            have sp := mergeOutClusters_spec K pre s (mid ++ [cur]) rest
+            rw [ih _ _ _ _ _ (by
+              intro m hm
+              obtain ⟨m', hm', e1, e2⟩ := sp.2.2.2.2 m hm
+              rw [e1, e2]; exact hrest' m' hm') (by rw [length_mergeOutClusters]; simpa using hn)]
+            rw [sp.1, sp.2.2.2.1]
+            have : (mergeOutClusters K pre s (mid ++ [cur]) rest).2.2.1.dropLast.map cm = mid.map cm := by
+              unfold mergeOutClusters
+              exact dropLast_snoc_map K mid cur _
+            rw [this]
+      · have hu' : unblocked mid cur = false := by simpa using hu
+        simp only [hu', Bool.false_eq_true, ↓reduceIte, hcur.2]
+        rw [ih rest pre s (mid ++ [cur]) flags hrest' (by simpa using hn)]
+        simp
+
+
+/-! ## Part 8: generated-table facts used by C09_tables_consistent -/
+
+set_option maxRecDepth 100000 in
+theorem decompTable_sorted : sortedKeys Gen.Norm.decompTable = true := by decide +kernel
+set_option maxRecDepth 100000 in
+theorem compTable_sorted : sortedKeys Gen.Norm.compTable = true := by decide +kernel
+
+set_option maxRecDepth 100000 in
+theorem comp_rows_in_decomp :
+    isSubseq (msort 12 (Gen.Norm.compTable.map (fun r => (r.2, r.1 / 2 ^ 32, r.1 % 2 ^ 32)))) Gen.Norm.decompTable = true := by
+  decide +kernel
+
+
 end RbModel.Norm
